@@ -15,8 +15,9 @@ EXTENDS GenProg, Grammars
 
 CONSTANTS Mode, MaxSize, SampleSize, SampleN
 
-CtxForms == C12CtxForms
-G == IF Mode = "qq" THEN C12GQ ELSE C12GM
+CtxForms == IF Mode = "lib" THEN C12LCtxForms ELSE C12CtxForms
+CtxName == IF Mode = "lib" THEN "c12l" ELSE "c12"
+G == CASE Mode = "qq" -> C12GQ [] Mode = "lib" -> C12GL [] OTHER -> C12GM
 Wrap(t) == IF Mode = "qq" THEN ListV(<<SymV("quasiquote"), t>>) ELSE t
 
 NMax == IF SampleSize > MaxSize THEN SampleSize ELSE MaxSize
@@ -24,7 +25,7 @@ ASSUME InitRegisters
 ASSUME SetContext(CtxForms)
 ASSUME TLCSet(3, Norm(G))
 ASSUME TLCSet(4, Norm(CountTab(G, NMax, <<>>)))
-ASSUME PrintT("CTX " \o ToJson([name |-> "c12", forms |-> CtxForms]))
+ASSUME PrintT("CTX " \o ToJson([name |-> CtxName, forms |-> CtxForms]))
 ASSUME PrintT(<<"COUNTS", TLCGet(4)>>)
 
 VARIABLES sz, idx, ph
@@ -36,7 +37,8 @@ Next == /\ ph = 0 /\ ph' = 1 /\ UNCHANGED <<sz, idx>>
         /\ LET prog == Wrap(Decode(TLCGet(3), TLCGet(4), sz, idx))
                r == RunInCtx(<<prog>>)
                c == [kind |-> "prog", tag |-> Mode \o ":" \o HeadTag(IF Mode = "qq" THEN prog.xs[2] ELSE prog),
-                     src |-> PrStr(prog), ctx |-> "c12", forms |-> <<prog>>, allow |-> Outcome(r, {"x"})]
+                     src |-> PrStr(prog), ctx |-> CtxName, forms |-> <<prog>>, allow |-> Outcome(r, {"x"}),
+                     opt |-> [alsotext |-> "1"]]
                \* QQAlgebra (theorem checked on the model for every template): evaluating the cons/concat/vec/quote
                \* REWRITE the code performs gives the same result and effects as the template SUBSTITUTION
                alg == IF Mode = "qq" /\ r.k # "unspec" /\ QQWellFormed(prog.xs[2])
